@@ -22,6 +22,9 @@ pub struct GenCfg {
   pub max_nodes: u32,
   pub allow_cached: bool,
   pub allow_user: bool,
+  /// user sources whose `size()` is an overestimate (never for C07, whose
+  /// clauses tie size() to buffer())
+  pub allow_estimate: bool,
   pub allow_binary: bool,
   pub allow_inner_map: bool,
   pub max_text: usize,
@@ -36,6 +39,7 @@ impl GenCfg {
       max_nodes: 7,
       allow_cached: true,
       allow_user: true,
+      allow_estimate: false,
       allow_binary: !ascii,
       allow_inner_map: true,
       max_text: 24,
@@ -574,7 +578,9 @@ pub fn gen_tree(rng: &mut Rng, cfg: &GenCfg, ids: &mut Ids, depth: u32, budget: 
     85..=94 if cfg.allow_user => TreeSpec::User {
       inner: Box::new(gen_tree(rng, cfg, ids, depth - 1, budget)),
       // 30 %: a user source that renumbers its sources / names
-      id: ids.user() | if rng.chance(300) { crate::spec::PERMUTE_BIT } else { 0 },
+      id: ids.user()
+        | if rng.chance(300) { crate::spec::PERMUTE_BIT } else { 0 }
+        | if cfg.allow_estimate && rng.chance(150) { crate::spec::ESTIMATE_BIT } else { 0 },
     },
     95..=99 => TreeSpec::Boxed {
       inner: Box::new(gen_tree(rng, cfg, ids, depth - 1, budget)),
